@@ -1,10 +1,110 @@
-(* C02/Properties.v — statements only. *)
-From Coq Require Import List NArith Bool.
-From MV Require Import Base.Prelude C02.Model C02.Proofs.
+(* C02/Properties.v — statements only (each is Print-Assumptions-audited by the driver).
+   Model: C02/Model.v ([select] = ConcatenationClerk::select_valid_signatures_for_k_indices,
+   [aggregate] = the signer_index filter of ConcatenationProof::aggregate_signatures + [select]).
+   Spec layer: C02/Spec.v ([covered] = the distinct indices carried by valid input signatures,
+   [valid_quorum] = what the C01 verifier needs from the result, stated on the input list).
+   All statements hold for every m, k, and every input list (any length, any index lists, repeated
+   indices inside a list, copies with equal or different index lists, any order). *)
+From Coq Require Import List NArith Bool Permutation.
+From MV Require Import Base.Prelude C02.Model C02.Spec C02.Proofs C02.Proofs4 C02.Proofs5.
 Import ListNotations.
 Open Scope N_scope.
 
+(* a success is always a valid quorum *)
+Theorem C02_sound : forall (m k : N) (l res : list sr),
+  select m k l = Some res -> valid_quorum m k l res.
+Proof. exact select_sound. Qed.
+
+(* 1. completeness: enough valid coverage => success with a valid quorum *)
+Theorem C02_complete : forall (m k : N) (l : list sr),
+  0 < k -> k <= N.of_nat (length (covered m l)) ->
+  exists res, select m k l = Some res /\ valid_quorum m k l res.
+Proof. exact select_complete. Qed.
+
+(* 2. NotEnoughSignatures exactly when the valid signatures do not cover k distinct indices
+      (for k = 0 the code still needs one covered index) *)
+Theorem C02_success_iff : forall (m k : N) (l : list sr),
+  select m k l <> None <-> (k <= N.of_nat (length (covered m l)) /\ covered m l <> []).
+Proof. exact select_success_iff. Qed.
+
+(* 3. invalid signatures anywhere in the list change nothing at all *)
 Theorem C02_junk : forall (m k : N) (l1 bad l2 : list sr),
   forallb (fun s => negb (valid m s)) bad = true ->
   select m k (l1 ++ bad ++ l2) = select m k (l1 ++ l2).
 Proof. exact select_junk. Qed.
+
+(* 6. monotonicity: if every valid signature of l is still present in l' (whatever else l' contains:
+      valid, invalid, repeated, re-ordered), a success stays a success and is a valid quorum *)
+Theorem C02_monotone : forall (m k : N) (l l' res : list sr),
+  (forall s, In s l -> valid m s = true -> In s l') ->
+  select m k l = Some res ->
+  exists res', select m k l' = Some res' /\ valid_quorum m k l' res'.
+Proof. exact select_monotone_quorum. Qed.
+
+Theorem C02_monotone_app : forall (m k : N) (l extra res : list sr),
+  select m k l = Some res ->
+  exists res', select m k (l ++ extra) = Some res' /\ valid_quorum m k (l ++ extra) res'.
+Proof. exact select_monotone_app. Qed.
+
+(* 4. copies: a signature each of whose indices is already carried by an EARLIER valid signature with a
+      sigma that is not larger changes nothing at all; in particular a repeated copy of an earlier
+      signature, with the same index list or any sub-list of it, whatever its registration entry *)
+Theorem C02_dup_redundant : forall (m k : N) (l1 : list sr) (c' : sr) (l2 : list sr),
+  (forall i, In i (idxs c') -> exists c, In c l1 /\ valid m c = true /\ In i (idxs c) /\ sg c <= sg c') ->
+  select m k (l1 ++ c' :: l2) = select m k (l1 ++ l2).
+Proof. exact select_redundant. Qed.
+
+Theorem C02_dup : forall (m k : N) (l1 : list sr) (c : sr) (l2 : list sr),
+  In c l1 -> select m k (l1 ++ c :: l2) = select m k (l1 ++ l2).
+Proof. exact select_dup. Qed.
+
+(* 5. order: success / failure does not depend on the order *)
+Theorem C02_order_success : forall (m k : N) (l l' : list sr),
+  Permutation l l' -> (select m k l <> None <-> select m k l' <> None).
+Proof. exact select_perm_success. Qed.
+
+(* 5'. order, exact: when no two valid signatures share a sigma while paired with different registration
+       entries, every permutation of the input gives the same list of (sigma, entry, index list)
+       (without the hypothesis: Refuted.v, C02_order_exact_refuted_with_ties) *)
+Theorem C02_order_exact : forall (m k : N) (l l' : list sr),
+  Permutation l l' -> no_ties m l ->
+  option_map (map proj) (select m k l) = option_map (map proj) (select m k l').
+Proof. exact select_perm_exact. Qed.
+
+(* the aggregation entry point: signatures with an unregistered signer_index are junk as well *)
+Theorem C02_aggregate_junk : forall (n m k : N) (l1 bad l2 : list sr),
+  forallb (fun s => negb (slot s <? n) || negb (valid m s)) bad = true ->
+  aggregate n m k (l1 ++ bad ++ l2) = aggregate n m k (l1 ++ l2).
+Proof. exact aggregate_junk. Qed.
+
+Theorem C02_aggregate_sound : forall (n m k : N) (l res : list sr),
+  aggregate n m k l = Some res -> valid_quorum m k l res /\ forall r, In r res -> slot r < n.
+Proof. exact aggregate_sound. Qed.
+
+Theorem C02_aggregate_success_iff : forall (n m k : N) (l : list sr),
+  aggregate n m k l <> None <->
+  (k <= N.of_nat (length (covered m (registered n l))) /\ covered m (registered n l) <> []).
+Proof. exact aggregate_success_iff. Qed.
+
+Theorem C02_aggregate_monotone : forall (n m k : N) (l l' res : list sr),
+  (forall s, In s l -> In s l') ->
+  aggregate n m k l = Some res ->
+  exists res', aggregate n m k l' = Some res' /\ valid_quorum m k l' res' /\ forall r, In r res' -> slot r < n.
+Proof. exact aggregate_monotone. Qed.
+
+(* non-vacuity *)
+Example C02_ex_covered : covered 10 ex_l = [0; 1; 2; 3].
+Proof. vm_compute. reflexivity. Qed.
+Example C02_ex_select :
+  select 10 4 ex_l
+  = Some [ {| sg := 3; ent := 1; idxs := [2; 3]; slot := 1; sok := true; lost := [] |};
+           {| sg := 5; ent := 0; idxs := [0; 1]; slot := 0; sok := true; lost := [] |} ].
+Proof. vm_compute. reflexivity. Qed.
+Example C02_ex_no_ties : no_ties 10 ex_l.
+Proof.
+  intros s s' Hs Hs' _ _. cbn in Hs, Hs'.
+  repeat (destruct Hs as [<-|Hs]; [repeat (destruct Hs' as [<-|Hs']; [cbn; intros; try reflexivity; discriminate|]); destruct Hs'|]).
+  destruct Hs.
+Qed.
+Example C02_ex_not_enough : select 10 5 ex_l = None.
+Proof. vm_compute. reflexivity. Qed.
